@@ -1,4 +1,4 @@
-import RV.Proofs.Compare6
+import RV.Proofs.Compare7
 import RV.Proofs.PersistTable
 import RV.Gen.C05Descriptors
 /-
@@ -150,6 +150,71 @@ theorem c17_table_memcmp_pointer_payloads : memcmpPtrIds table rowElems ⊆ [86,
 /-- only the two wall-clock fields are exempt from the comparison -/
 theorem c17_table_walltime_rows : (table.filter (·.wall)).map (·.id) ⊆ [126, 127] := by decide +kernel
 
+/-! ### the report of reb_binary_diff (what differs, not only whether) -/
+
+/-- **the report lists exactly the differing persisted fields** (binarydiff.c:154-394, output_option 0 — the difference
+    stream of archive snapshots): an entry `(id, p)` is written iff the field is in stream 1 and has vanished from
+    stream 2 (then `p` is empty), or is in both with differing payloads (then `p` is the payload of stream 2; for
+    `particles` / `var_config` "differ" is the element loop of `c17_memberwise_exact`), or is in stream 2 only.
+    Any table, any two field lists. -/
+theorem c17_report_exact (sp : Special) (specs : List CmpSpec) (tbl : List Desc) (fs1 fs2 : List Field) (id : Nat) (p : Bytes) :
+    (id, p) ∈ diffReport sp specs tbl fs1 fs2 ↔
+      (∃ p1, (id, p1) ∈ body sp fs1 ∧ findField (body sp fs2) id = none ∧ p = []) ∨
+      (∃ p1, (id, p1) ∈ body sp fs1 ∧ findField (body sp fs2) id = some p ∧
+          payloadDiffer specs (descForType tbl id) p1 p = true) ∨
+      ((id, p) ∈ body sp fs2 ∧ findField (body sp fs1) id = none) :=
+  diffReport_mem_iff sp specs tbl fs1 fs2 id p
+
+/-- the return value is "different" exactly when the report holds an entry other than a walltime field present in
+    both streams -/
+theorem c17_compare_iff_report (sp : Special) (specs : List CmpSpec) (tbl : List Desc) (fs1 fs2 : List Field) :
+    compare sp specs tbl fs1 fs2 = true ↔
+      ∃ f ∈ diffReport sp specs tbl fs1 fs2, counts sp tbl fs1 fs2 f = true :=
+  compare_iff_report sp specs tbl fs1 fs2
+
+/-- nothing is reported iff every field of stream 1 has a partner whose payload does not differ and stream 2 has no
+    further field (walltime fields included: they are reported, though they do not count) -/
+theorem c17_report_empty_iff (sp : Special) (specs : List CmpSpec) (tbl : List Desc) (fs1 fs2 : List Field) :
+    diffReport sp specs tbl fs1 fs2 = [] ↔
+      (∀ f ∈ body sp fs1, ∃ p, findField (body sp fs2) f.1 = some p ∧
+          payloadDiffer specs (descForType tbl f.1) f.2 p = false) ∧
+      (∀ f ∈ body sp fs2, (findField (body sp fs1) f.1).isSome = true) :=
+  diffReport_nil_iff sp specs tbl fs1 fs2
+
+/-- **no real difference is left out**: reading stream 1 and then the report (later fields replace earlier ones, as the
+    archive reader does) leaves, for every field stream 2 holds, stream 2's payload in force — or stream 1's where the
+    comparison saw no difference; a field stream 2 lacks ends up absent or empty.  Hypothesis: ids of stream 1 are
+    unique (true of every stream the writer produces: `c05_table_ok`). -/
+theorem c17_report_reproduces_second (sp : Special) (specs : List CmpSpec) (tbl : List Desc) (fs1 fs2 : List Field)
+    (hn : ((body sp fs1).map (·.1)).Nodup) (id : Nat) :
+    (∀ p2, findField (body sp fs2) id = some p2 →
+      ∃ q, inForce (body sp fs1) (diffReport sp specs tbl fs1 fs2) id = some q ∧
+        (q = p2 ∨ (findField (body sp fs1) id = some q ∧ payloadDiffer specs (descForType tbl id) q p2 = false))) ∧
+    (findField (body sp fs2) id = none →
+      inForce (body sp fs1) (diffReport sp specs tbl fs1 fs2) id =
+        if (findField (body sp fs1) id).isSome then some [] else none) :=
+  inForce_report sp specs tbl fs1 fs2 hn id
+
+/-- the element loop of every member-wise compared row of the current table runs over the row's OWN element size
+    (binarydiff.c:222, 228: `field1.size/sizeof(struct …)`): the size of the compare spec equals the element size of
+    the descriptor row and of the row's element struct -/
+theorem c17_table_loop_bound :
+    (table.all (fun d =>
+      match d.cmp with
+      | 0 => true
+      | k + 1 =>
+        match cmpSpecs[k]?, rowElems.find? (fun p => p.1 = d.id) with
+        | some c, some p => c.size == d.elemSize && c.size == p.2.size
+        | _, _ => false)) = true := by decide +kernel
+
+/-- hypotheses satisfiable and statement non-trivial: a changed double, a changed walltime field, a vanished field
+    and a new field are reported in the order of the source; only the walltime entry does not count -/
+example : diffReport special cmpSpecs table
+    [(0, [1,2,3,4,5,6,7,8]), (126, [1,2,3,4,5,6,7,8]), (3, [9,9,9,9,9,9,9,9]), (85, []), (9999, [])]
+    [(126, [1,2,3,4,5,6,7,9]), (0, [1,2,3,4,5,6,7,9]), (3, [9,9,9,9,9,9,9,9]), (86, [7]), (9999, [])] =
+    [(0, [1,2,3,4,5,6,7,9]), (126, [1,2,3,4,5,6,7,9]), (85, []), (86, [7])] := by decide +kernel
+example : (((body special [(0, [1]), (126, [2]), (9999, ([] : Bytes))]).map (·.1)).Nodup) := by decide +kernel
+example : inForce [(0, [1]), (85, [5])] [(0, [2]), (85, [])] 85 = some [] := by decide +kernel
 /-! ### non-vacuity -/
 example : compare special cmpSpecs table [(0, [1,2,3,4,5,6,7,8]), (9999, [])] [(0, [1,2,3,4,5,6,7,8]), (9999, [])] = false := by
   decide +kernel
